@@ -96,7 +96,7 @@ def describe(first, body, v5):
                 n += 1
             d.update(kind="unsubscribe", pid=pid, n=n, filter=first_filter)
         elif t == 1:
-            d.update(kind="connect")
+            d.update(kind="connect", clean=bool(body[7] & 2))
         elif t == 12:
             d.update(kind="pingreq")
         elif t == 14:
@@ -159,6 +159,7 @@ class Broker:
         self.seen = []                 # every client packet of this connection, in order
         self.connect_seen = False
         self.connack_sent = False
+        self.alias_tbl = {}
 
     def new_connection(self):
         self.buf = b""
@@ -166,6 +167,7 @@ class Broker:
         self.seen = []
         self.connect_seen = False
         self.connack_sent = False
+        self.alias_tbl = {}
 
     def feed(self, data):
         self.buf += data
@@ -179,6 +181,7 @@ class Broker:
             k = d.get("kind")
             if k == "connect":
                 self.connect_seen = True
+                self.clean_start = d.get("clean", False)
             elif k == "publish" and d.get("qos") == 1:
                 self.pending.append({"kind": "puback", "pid": d["pid"]})
             elif k == "publish" and d.get("qos") == 2:
@@ -294,12 +297,13 @@ def gen_config(rng, adversarial=False):
 
 
 class Walk:
-    def __init__(self, rng, harness, adversarial=False, strict_driver=False, length=80):
+    def __init__(self, rng, harness, adversarial=False, strict_driver=False, length=80, snap_after_svc=False):
         self.rng = rng
         self.h = harness
         self.adv = adversarial
         self.strict = strict_driver
         self.length = length
+        self.snap_after_svc = snap_after_svc
         self.script = []        # concrete request lines
         self.out = []           # implementation responses
         self.notes = []         # per line: annotation dict for monitors
@@ -310,6 +314,9 @@ class Walk:
         self.cap = 4096
         self.nuser = 0
         self.cfg, self.new_line, self.ka = gen_config(rng, adversarial)
+        _ckv = parse_kv("c " + self.new_line.split(" | ", 1)[1])[1]
+        self.client_tam = int(kv_get(_ckv, "tam", "0"))
+        self.connect_kv = _ckv
         self.v5 = self.cfg["v"] == 5
         self.broker = Broker(rng, self.v5)
         self.dead = False       # implementation panicked / died
@@ -321,7 +328,7 @@ class Walk:
         resp = self.h.ask(line)
         self.script.append(line)
         self.out.append(resp)
-        note.update(t=self.t, conn=self.conn_index, connected=self.connected)
+        note.update(t=self.t, conn=self.conn_index, connected=self.connected, tainted=getattr(self, "tainted", False))
         self.notes.append(note)
         f, segs = resp_fields(resp)
         res = f.get("res", "")
@@ -379,6 +386,7 @@ class Walk:
         self.cap = self.rng.choice([4, 5, 7, 8, 12, 16, 23, 40, 64, 128, 4096, 4096])
         self.buf_len = 0
         self.errored = False
+        self.tainted = False
         f, _ = self.send(f"eng.open t={self.t} deadline={dl}", kind="open", deadline=dl, cap=self.cap)
         self.connected = True
 
@@ -398,6 +406,8 @@ class Walk:
             self.buf_len += len(b)
             pkts = self.broker.feed(b)
             self.notes[-1]["client_packets"] = pkts
+        if self.snap_after_svc and self.connected:
+            self.snap()
 
     def write_completion(self):
         self.send(f"eng.wc t={self.t}", kind="wc")
@@ -420,8 +430,11 @@ class Walk:
         b = self.broker
         rc = 0 if r.chance(0.9) else r.choice([135, 136])
         sp = 1 if (b.session and rc == 0 and r.chance(0.7)) else 0
+        if getattr(b, "clean_start", False):
+            sp = 0          # a conformant server discards the session on Clean Start
         if self.adv and r.chance(0.05):
             sp = 1
+            self.tainted = True
         caps = {}
         if self.v5:
             if r.chance(0.4):
@@ -494,9 +507,17 @@ class Walk:
         alias = None
         topic = b"in/%d" % r.randint(0, 3)
         if self.v5 and r.chance(0.3):
-            alias = r.choice([1, 2, 3, 11])
-            if r.chance(0.4):
-                topic = b""
+            if self.adv:
+                alias = r.choice([1, 2, 3, 11])
+                if r.chance(0.4):
+                    topic = b""
+            elif self.client_tam > 0:
+                # a conformant server: alias within the client's maximum, empty topic only for a bound alias
+                alias = r.randint(1, min(self.client_tam, 3))
+                if alias in b.alias_tbl and r.chance(0.5):
+                    topic = b""
+                else:
+                    b.alias_tbl[alias] = topic
         pkt = b.publish(qos, pid, dup, topic, bytes([r.randint(0, 255) for _ in range(r.choice([0, 2, 9]))]), alias)
         self.data(pkt, "srv-publish")
         self.notes[-1].update(srv_publish=dict(qos=qos, pid=pid, dup=dup, topic=topic, alias=alias))
@@ -504,6 +525,9 @@ class Walk:
     def hostile(self):
         r = self.rng
         b = self.broker
+        # from here on the inbound stream of this connection may be desynchronised (bytes swallowed as
+        # the body of a bogus packet): expectations about later deliveries are suspended until reconnect
+        self.tainted = True
         c = r.random()
         if c < 0.2:
             pkt = b.ack(r.choice(["puback", "pubrec", "pubcomp"]), r.choice([1, 2, 3, 77, 65535]))
@@ -530,6 +554,11 @@ class Walk:
             pkt = bytes(r.randint(0, 255) for _ in range(r.randint(1, 12)))
             label = "random-bytes"
         self.data(pkt, "hostile:" + label)
+        if label == "second-connack":
+            self.notes[-1].update(connack=dict(sp=0, rc=0, caps={}))
+            if resp_fields(self.out[-1])[0].get("res") == "ok":
+                b.connack_sent = True
+                b.session = True
 
     def next_time(self):
         f, _ = self.send(f"eng.nst t={self.t}", kind="nst")
@@ -628,6 +657,7 @@ class Walk:
                     self.deliver_response()
                     if self.adv and r.chance(0.5):
                         b.pending.insert(0, p)     # the same ack will be delivered twice
+                        self.tainted = True        # a duplicating server: delivery expectations are suspended
                 else:
                     self.advance()
             elif c < 0.955:
